@@ -125,7 +125,7 @@ def required_others(which: int, a: bool, b: bool, c: bool) -> bool:
         cls, req, optkey = [("_BasePutThing", [("rStr", "")], "mode"),            # name in path, book is the body
                             ("_BasePostThing", [], "extra"),                       # body '*': nothing is a query param
                             ("_BasePatchThing", [("rStr", "")], None),             # book.name in path, book is the body
-                            ("_BaseDeleteThing", [("etag", "")], None),
+                            ("_BaseDeleteThing", [("etag", ""), ("rev", 0)], None),   # rev: required + proto3 optional
                             ("_BaseTwoVars", [("view", "")], None)][which]
         q = {}
         if a and req:
